@@ -22,7 +22,7 @@ from pane.converters import (NestedSequenceConverter, DelegateConverter, UnionCo
 from pane.types import Range, ValueOrList
 
 import hlib
-from hlib import (obligation, gv, gvf, lf, lf3, key3, key4, GV_PRE, GV_SIG, GV_ARGS, GVF_PRE, GVF_SIG, GVF_ARGS,
+from hlib import (obligation, gv, gvf, lf, lf3, cint, key3, key4, GV_PRE, GV_SIG, GV_ARGS, GVF_PRE, GVF_SIG, GVF_ARGS,
                   OutOfBound, NAN)
 
 
@@ -34,6 +34,17 @@ class E1(enum.Enum):
 
 
 class EI(enum.Enum):
+    ONE = 1
+    TWO = 2
+
+
+class ESM(str, enum.Enum):
+    """an enum mixing in str: its members ARE strings"""
+    A = 'a'
+    B = 'b'
+
+
+class EIM(enum.IntEnum):
     ONE = 1
     TWO = 2
 
@@ -166,6 +177,11 @@ TYPES = {
 
 TYPES['union_tag_dict'] = t.Union[TYPES['tag_int'], t.Dict[str, int]]
 # a tagged union as a member of another union keeps its own layout
+# keys that are themselves sequences
+TYPES['dict_fskey'] = t.Dict[t.FrozenSet[int], int]
+TYPES['dict_tupkey'] = t.Dict[t.Tuple[int, t.FrozenSet[int]], str]
+TYPES['opt_enum_sm'] = t.Optional[ESM]
+TYPES['list_enum_im'] = t.List[t.Optional[EIM]]
 TYPES['opt_tag_ext'] = t.Optional[TYPES['tag_ext']]
 TYPES['union_tag_adj'] = t.Union[int, TYPES['tag_adj'], None]
 
@@ -201,10 +217,10 @@ ACC = {'tuple_fix': 'B', 'tuple_lit': 'B', 'range': None, 'tag_adj': None, 'tag_
        'pt': 'A', 'cond_set': 'B', 'tuple_struct': None, 'opt_tag_ext': 'A', 'union_tag_adj': 'A'}
 REJ = {'any': None}
 MAPPISH = {'any', 'dict_si', 'dict_if', 'counter', 'ddict', 'struct', 'union', 'p1', 'p2', 'ph', 'pal', 'range', 'dict_p2',
-           'tag_int', 'tag_ext', 'tag_adj', 'vol', 'picky', 'pn', 'pi', 'union_tag_dict', 'opt_vol', 'opt_tag_ext', 'union_tag_adj'}
+           'tag_int', 'tag_ext', 'tag_adj', 'vol', 'picky', 'pn', 'pi', 'union_tag_dict', 'opt_vol', 'opt_tag_ext', 'union_tag_adj', 'dict_fskey', 'dict_tupkey'}
 SEQISH = {'any', 'list_int', 'seq_any', 'set_int', 'tuple_var', 'tuple_fix', 'tuple_lit', 'union', 'opt_list', 'vol',
           'cond_len', 'cond_nested', 'nested', 'nested_ragged', 'p2', 'ph', 'range', 'list_p1', 'union_ctor', 'lit', 'str',
-          'pt', 'pi', 'cond_set', 'opt_vol', 'tuple_struct'}
+          'pt', 'pi', 'cond_set', 'opt_vol', 'tuple_struct', 'list_enum_im'}
 TEXT = {'date', 'pattern', 'decimal', 'fraction'}      # text parsed by stdlib C/regex code: concretised vocabulary (td_text)
 # converters whose target constructor realises a symbolic int (complex(), int subclass __new__, float()): small ints
 SMALLINT = {'complex', 'cond_rng', 'range', 'myint', 'delegate', 'strsub', 'cond_set'}
@@ -395,6 +411,21 @@ def b_struct2(pa, ka, ia, sa, pb, kb, ib, sb, pe, names=('a', 'b', 'zz')):
     return d
 
 
+def b_seqkey(n, ka, ia, sa, ib, two, nest):
+    """a mapping whose keys are tuples: {(A, ib..): 'v'} of length n, optionally a second key; nest: the second position is itself a tuple"""
+    A = lf(ka, ia, sa, True)           # concrete classes: the leaf is hashed as part of a key
+    ib = cint(ib)
+    rest = (ib, 3)
+    if nest:
+        key = (A, (ib,)) if n >= 2 else (A,)
+    else:
+        key = (A,) + rest[:n - 1] if n >= 1 else ()
+    d = {key: 'v' if nest else 1}
+    if two:
+        d[(7, (8,)) if nest else (7, 8)] = 'w' if nest else 2
+    return d
+
+
 def b_pal(y1, y2, ka, ia, sa, bk):
     """PAl (rename='camel', aliases): one or two keys naming a_b chosen from its candidate names, plus field b"""
     d = {}
@@ -517,6 +548,10 @@ TD = {
                       "1 <= tk <= 8 and 0 <= bk <= 2 and 0 <= ka <= 5 and 0 <= shape <= 4 and "
                       "((shape == 0 and tk <= 2) or (bk == 0 and not ha and not he))",
                       "b_tag_adj(tk, bk, ha, ka, ia, sa, he, shape)", (0, -1)),
+    'dict_fskey': ('dict_fskey', "n: int, ka: int, ia: int, sa: str, ib: int, two: bool",
+                   "0 <= n <= 3 and 0 <= ka <= 5 and -1 <= ia <= 1 and -1 <= ib <= 1", "b_seqkey(n, ka, ia, sa, ib, two, False)", (0, -1)),
+    'dict_tupkey': ('dict_tupkey', "n: int, ka: int, ia: int, sa: str, ib: int, two: bool",
+                    "0 <= n <= 3 and 0 <= ka <= 5 and -1 <= ia <= 1 and -1 <= ib <= 1", "b_seqkey(n, ka, ia, sa, ib, two, True)", (0, -1)),
     'range': ('range', "hs: bool, he: bool, e: int, nsel: int, ssel: int",
               "0 <= e <= 1 and 0 <= nsel <= 7 and 0 <= ssel <= 4", "b_range(hs, he, e, nsel, ssel)", (0, -1)),
     'range_seq': ('range', "n: int, e: int, nsel: int, tup: bool",
@@ -671,5 +706,5 @@ def warm(fn):
 def export(ns):
     """Names the generated bodies need in the harness module's namespace."""
     for k in ('obligation', 'gv', 'gvf', 'lf', 'lf3', 'b_tag_int', 'b_tag_ext', 'b_tag_adj', 'b_range', 'b_seq', 'b_struct2',
-              'b_pal', 'b_nested', 'b_pn', 'b_text', 'b_range_seq', 'b_numtext'):
+              'b_pal', 'b_nested', 'b_pn', 'b_text', 'b_range_seq', 'b_numtext', 'b_seqkey'):
         ns[k] = globals()[k]
